@@ -763,3 +763,30 @@ func (f *Flow) reachBlockEdges(starts []point, stop nodePred, isTarget func(*cfg
 	}
 	return false
 }
+
+// established reports that every path from the function entry to the CFG node
+// that contains target takes an edge on which pred holds for some atomic fact
+// of the branch condition (a guard established by an enclosing if, a switch
+// case, or an earlier `if !guard { return }`).
+func (f *Flow) established(target ast.Node, pred func(e ast.Expr, val bool) bool) bool {
+	contains := func(nd ast.Node) bool {
+		if nd == target {
+			return true
+		}
+		hit := false
+		ast.Inspect(nd, func(m ast.Node) bool {
+			if m == target {
+				hit = true
+			}
+			return !hit
+		})
+		return hit
+	}
+	if len(f.find(contains)) == 0 {
+		return false
+	}
+	_, reachable := f.reachEx([]point{f.entry()}, nil, contains, func(b *cfg.Block, si int) bool {
+		return edgeImplies(b, si, pred)
+	})
+	return !reachable
+}
